@@ -177,6 +177,210 @@ public:
     }
 };
 
+// ---- LazyPRM lock-step: vertex numbering through the nearest-neighbour hooks, the A* result read from the graph's
+// predecessor map at the first callback after the search (isValid / motionCost), roadmap dump through a derived class
+class PeekLazyPRM;
+struct LazyHook
+{
+    std::map<void *, size_t> idOf;
+    size_t next = 0;
+    bool astarActive = false;
+    bool inHeuristic = false;
+    PeekLazyPRM *planner = nullptr;
+    std::shared_ptr<DrawLog> log;
+    void afterAstar();
+};
+static LazyHook g_lazy;
+
+template <class T>
+class RecNN : public ompl::NearestNeighborsLinear<T>
+{
+public:
+    void add(const T &d) override
+    {
+        g_lazy.idOf[(void *)d] = g_lazy.next++;
+        ompl::NearestNeighborsLinear<T>::add(d);
+    }
+    bool remove(const T &d) override
+    {
+        g_lazy.idOf.erase((void *)d);
+        return ompl::NearestNeighborsLinear<T>::remove(d);
+    }
+};
+
+class PeekLazyPRM : public og::LazyPRM
+{
+public:
+    using og::LazyPRM::LazyPRM;
+    // after setup(): the linear structure with hooks, its distance function, and a fresh default strategy bound to it
+    void installNN()
+    {
+        nn_ = std::make_shared<RecNN<Vertex>>();
+        nn_->setDistanceFunction([this](const Vertex a, const Vertex b) { return distanceFunction(a, b); });
+        setDefaultConnectionStrategy();
+    }
+    static std::string bitsOf(const ob::SpaceInformationPtr &si, const ob::State *st)
+    {
+        std::vector<double> r;
+        si->getStateSpace()->copyToReals(r, st);
+        std::string o;
+        for (size_t i = 0; i < r.size(); ++i)
+            o += (i ? "," : "") + vp::bits(r[i]);
+        return o;
+    }
+    void capturePath()
+    {
+        auto prev = boost::get(boost::vertex_predecessor, g_);
+        for (Vertex g : goalM_)
+        {
+            if (prev[g] == g)
+                continue;
+            std::vector<double> ids;
+            Vertex pos = g;
+            for (;;)
+            {
+                auto it = g_lazy.idOf.find((void *)pos);
+                ids.push_back(it == g_lazy.idOf.end() ? -1.0 : (double)it->second);
+                if (prev[pos] == pos || ids.size() > 100000)
+                    break;
+                pos = prev[pos];
+            }
+            std::reverse(ids.begin(), ids.end());
+            g_lazy.log->add('a', ids);
+            return;
+        }
+        g_lazy.log->add('a', {});
+    }
+    std::string dump() const
+    {
+        std::map<unsigned long, size_t> canon;
+        std::string vs, es;
+        size_t nv = 0, ne = 0;
+        foreachVertex([&](Vertex v) {
+            unsigned long c = vertexComponentProperty_[v];
+            if (!canon.count(c))
+            {
+                size_t k = canon.size();
+                canon[c] = k;
+            }
+            vs += " " + std::to_string(g_lazy.idOf.at((void *)v)) + ":" + bitsOf(si_, stateProperty_[v]) + ":" +
+                  std::to_string(vertexValidityProperty_[v] & VALIDITY_TRUE) + ":" + std::to_string(canon[c]);
+            ++nv;
+        });
+        boost::graph_traits<Graph>::edge_iterator ei, eend;
+        for (boost::tie(ei, eend) = boost::edges(g_); ei != eend; ++ei)
+        {
+            es += " " + std::to_string(g_lazy.idOf.at((void *)boost::source(*ei, g_))) + "-" +
+                  std::to_string(g_lazy.idOf.at((void *)boost::target(*ei, g_))) + ":" +
+                  std::to_string(edgeValidityProperty_[*ei] & VALIDITY_TRUE) + ":" + vp::bits(weightProperty_[*ei].value());
+            ++ne;
+        }
+        return "roadmap nv=" + std::to_string(nv) + " ne=" + std::to_string(ne) + vs + " |" + es;
+    }
+    std::string misc() const
+    {
+        std::string s = "misc iterations=" + std::to_string(iterations_) + " startm=";
+        for (size_t i = 0; i < startM_.size(); ++i)
+            s += (i ? "," : "") + std::to_string(g_lazy.idOf.at((void *)startM_[i]));
+        s += " goalm=";
+        for (size_t i = 0; i < goalM_.size(); ++i)
+            s += (i ? "," : "") + std::to_string(g_lazy.idOf.at((void *)goalM_[i]));
+        return s;
+    }
+    // connected-component bookkeeping against real connectivity: number of vertex pairs (u, v), u's id class == v's,
+    // that are NOT connected in the graph (0 = sound), and pairs connected but with different ids
+    std::pair<size_t, size_t> componentAudit() const
+    {
+        std::vector<Vertex> vs;
+        foreachVertex([&](Vertex v) { vs.push_back(v); });
+        std::map<Vertex, size_t> real;
+        size_t nreal = 0;
+        for (Vertex v : vs)
+        {
+            if (real.count(v))
+                continue;
+            std::vector<Vertex> q{v};
+            real[v] = nreal;
+            while (!q.empty())
+            {
+                Vertex n = q.back();
+                q.pop_back();
+                boost::graph_traits<Graph>::adjacency_iterator a, last;
+                for (boost::tie(a, last) = boost::adjacent_vertices(n, g_); a != last; ++a)
+                    if (!real.count(*a))
+                    {
+                        real[*a] = nreal;
+                        q.push_back(*a);
+                    }
+            }
+            ++nreal;
+        }
+        size_t sameIdNotConn = 0, connDiffId = 0;
+        for (size_t i = 0; i < vs.size(); ++i)
+            for (size_t j = i + 1; j < vs.size(); ++j)
+            {
+                bool sameId = vertexComponentProperty_[vs[i]] == vertexComponentProperty_[vs[j]];
+                bool conn = real[vs[i]] == real[vs[j]];
+                if (sameId && !conn)
+                    ++sameIdNotConn;
+                if (!sameId && conn)
+                    ++connDiffId;
+            }
+        return {sameIdNotConn, connDiffId};
+    }
+
+private:
+    template <class F>
+    void foreachVertex(F f) const
+    {
+        boost::graph_traits<Graph>::vertex_iterator vi, vend;
+        for (boost::tie(vi, vend) = boost::vertices(g_); vi != vend; ++vi)
+            f(*vi);
+    }
+};
+
+void LazyHook::afterAstar()
+{
+    if (astarActive && !inHeuristic)
+    {
+        astarActive = false;
+        if (planner)
+            planner->capturePath();
+    }
+}
+
+// path-length objective that tells the hook when an A* search is running / over
+class RecObjective : public ob::PathLengthOptimizationObjective
+{
+public:
+    using ob::PathLengthOptimizationObjective::PathLengthOptimizationObjective;
+    ob::Cost motionCostHeuristic(const ob::State *s1, const ob::State *s2) const override
+    {
+        g_lazy.astarActive = true;
+        g_lazy.inHeuristic = true;
+        ob::Cost c = ob::PathLengthOptimizationObjective::motionCostHeuristic(s1, s2);
+        g_lazy.inHeuristic = false;
+        return c;
+    }
+    ob::Cost motionCost(const ob::State *s1, const ob::State *s2) const override
+    {
+        g_lazy.afterAstar();
+        return ob::PathLengthOptimizationObjective::motionCost(s1, s2);
+    }
+};
+
+// the recording checker, telling the hook about the first validity query after an A* search
+class HookedChecker : public vp::RecordingValidityChecker
+{
+public:
+    using vp::RecordingValidityChecker::RecordingValidityChecker;
+    bool isValid(const ob::State *state) const override
+    {
+        g_lazy.afterAstar();
+        return vp::RecordingValidityChecker::isValid(state);
+    }
+};
+
 // ------------------------------------------------------------------------------------------------ configuration
 struct Config
 {
@@ -193,6 +397,7 @@ struct Config
     unsigned long seed = 0, budget = 1000, pollcap = 100000;
     std::string mode = "run";
     bool trace = false;
+    bool costThrInf = true;  // LazyPRM lock-step: cost threshold of the objective (inf = LazyPRM's own default)
 };
 
 static std::string dstr(double d)
@@ -296,7 +501,7 @@ static int runOnce(const Config &c)
         });
 
     auto si = std::make_shared<ob::SpaceInformation>(space);
-    auto vc = std::make_shared<vp::RecordingValidityChecker>(si, env, true);
+    std::shared_ptr<vp::RecordingValidityChecker> vc = std::make_shared<HookedChecker>(si, env, true);
     si->setStateValidityChecker(vc);
     si->setStateValidityCheckingResolution(c.res);
     si->setup();
@@ -359,11 +564,20 @@ static int runOnce(const Config &c)
         goal = rg;
     }
     pdef->setGoal(goal);
-    pdef->setOptimizationObjective(std::make_shared<ob::PathLengthOptimizationObjective>(si));
+    if (lock && c.planner == "LazyPRM")
+    {
+        auto obj = std::make_shared<RecObjective>(si);
+        if (c.costThrInf)
+            obj->setCostThreshold(obj->infiniteCost());
+        pdef->setOptimizationObjective(obj);
+    }
+    else
+        pdef->setOptimizationObjective(std::make_shared<ob::PathLengthOptimizationObjective>(si));
 
     ob::PlannerPtr planner;
     PeekRRT *peek = nullptr;
     PeekRRTConnect *peekC = nullptr;
+    PeekLazyPRM *peekL = nullptr;
     if (lock)
     {
         if (c.planner == "RRT")
@@ -378,8 +592,16 @@ static int runOnce(const Config &c)
             peekC = p.get();
             planner = p;
         }
+        else if (c.planner == "LazyPRM")
+        {
+            auto p = std::make_shared<PeekLazyPRM>(si);
+            peekL = p.get();
+            g_lazy.planner = peekL;
+            g_lazy.log = draws;
+            planner = p;
+        }
         else
-            throw vp::ParseError("lockstep is RRT / RRTConnect only");
+            throw vp::ParseError("lockstep is RRT / RRTConnect / LazyPRM only");
     }
     else
         planner = makePlanner(c.planner, si, sis);
@@ -399,6 +621,11 @@ static int runOnce(const Config &c)
     {
         if (c.hasRange)
             peekC->setRange(c.range);
+    }
+    else if (peekL)
+    {
+        if (c.hasRange)
+            peekL->setRange(c.range);
     }
     else
     {
@@ -421,6 +648,11 @@ static int runOnce(const Config &c)
             peek->setNearestNeighbors<ompl::NearestNeighborsLinear>();  // clears, installs, calls setup()
         else if (peekC)
             peekC->setNearestNeighbors<ompl::NearestNeighborsLinear>();
+        else if (peekL)
+        {
+            peekL->setup();
+            peekL->installNN();
+        }
         else
             planner->setup();
         {
@@ -473,6 +705,8 @@ static int runOnce(const Config &c)
             r = peek->getRange();
         else if (peekC)
             r = peekC->getRange();
+        else if (peekL)
+            r = peekL->getRange();
         else
         {
             std::string v;
@@ -647,7 +881,15 @@ static int runOnce(const Config &c)
             std::lock_guard<std::mutex> g(draws->m);
             std::cout << "draws n=" << draws->draws.size() << "\n";
             for (auto &d : draws->draws)
-                std::cout << "draw " << d.first << " " << vp::showReals(d.second) << "\n";
+                if (d.first == 'a')
+                {
+                    std::cout << "astar " << d.second.size();
+                    for (double x : d.second)
+                        std::cout << " " << (long long)x;
+                    std::cout << "\n";
+                }
+                else
+                    std::cout << "draw " << d.first << " " << vp::showReals(d.second) << "\n";
         }
         // canonical lines, textually compared with drv_rrt's
         auto top = pdef->getSolutionPath();
@@ -655,6 +897,13 @@ static int runOnce(const Config &c)
                   << (pdef->getSolutionCount() > before ? 1 : 0) << "\n";
         if (peek)
             std::cout << "L " << peek->dumpTree() << "\n";
+        else if (peekL)
+        {
+            std::cout << "L " << peekL->dump() << "\n";
+            std::cout << "L " << peekL->misc() << " ngoal=" << planner->getPlannerInputStates().getSampledGoalsCount() << "\n";
+            auto audit = peekL->componentAudit();
+            std::cout << "L audit sameid_notconnected=" << audit.first << " connected_diffid=" << audit.second << "\n";
+        }
         else
         {
             std::cout << "L " << peekC->dumpTree(true) << "\n";
@@ -746,6 +995,8 @@ int main()
             c.mode = rest[0];
         else if (op == "trace" && rest.size() == 1 && (rest[0] == "0" || rest[0] == "1"))
             c.trace = rest[0] == "1";
+        else if (op == "costthr" && rest.size() == 1 && (rest[0] == "inf" || rest[0] == "zero"))
+            c.costThrInf = rest[0] == "inf";
         else if (op == "watchdog" && rest.size() == 1 && vp::parseNat(rest[0]))
             alarm((unsigned)*vp::parseNat(rest[0]));
         else if (op == "go" && rest.empty())
